@@ -14,6 +14,7 @@ sys.path.insert(0, HERE)
 import assemble  # noqa: E402
 import verus_run  # noqa: E402
 import kani_run  # noqa: E402
+import native_run  # noqa: E402
 from props import PROPS, TRUSTED_ALLOW, UNIT_RLIMIT  # noqa: E402
 
 REPO = os.environ.get('E57_REPO', '/repo')
@@ -289,6 +290,9 @@ def decide(prop, tier, seed):
             kgroups += cfg.get('kani_thorough', [])
         if kgroups:
             kani_run.run_groups(prop, kgroups, REPO, workdir, out, tier, known, match_known)
+        if cfg.get('native'):
+            # bounded executable contract checks: counterexample finders (never counted as proved)
+            native_run.run_groups(prop, cfg['native'], REPO, workdir, out, tier, known, match_known)
         # replay of Verus failures with a paired Kani harness
         for v in out.violations:
             if v['backend'] == 'verus' and v.get('cex') is None:
